@@ -432,6 +432,7 @@ func (x *runner) rxEmit(run *rxRun, acts []rxAction, note string) {
 
 func (x *runner) rxFinish(run *rxRun, acts []rxAction, class string) {
 	run.finish()
+	x.noteSlow("receipts", run.failed, run.failWhat)
 	run.oracle()
 	cc := rxCase{Mode: "receipts", Actions: acts}
 	canon, _ := json.Marshal(cc)
@@ -449,6 +450,9 @@ func (x *runner) rxFinish(run *rxRun, acts []rxAction, class string) {
 }
 
 func (x *runner) rxReplay(acts []rxAction, class string) {
+	if x.skip("receipts") && class != "replay" {
+		return
+	}
 	run, err := newRxRun()
 	if err != nil {
 		x.res.Fail("C06/harness/setup", err.Error(), nil)
@@ -464,6 +468,9 @@ func (x *runner) rxReplay(acts []rxAction, class string) {
 }
 
 func (x *runner) rxWalk(r *hx.Rand, maxSenders, steps int) {
+	if x.skip("receipts") {
+		return
+	}
 	run, err := newRxRun()
 	if err != nil {
 		x.res.Fail("C06/harness/setup", err.Error(), nil)
